@@ -22,6 +22,7 @@ import (
 	"sort"
 	"strings"
 	"sync"
+	"time"
 
 	"verifh/core"
 	"verifh/tlc"
@@ -43,17 +44,8 @@ func run(c *core.Ctx) {
 			gossipChild(c, j)
 		case "alloc":
 			allocChild(c, j)
-		}
-		return
-	}
-	if os.Getenv("C16_DEBUG") == "classes" {
-		for _, cn := range classNames {
-			b, err := buildClass(cn, false)
-			if err != nil {
-				fmt.Println(cn, "ERR", err)
-				continue
-			}
-			fmt.Printf("%-18s %+v match=%v proposerView=%d target=%d\n", cn, b.facts(), factsMatch(b.facts(), wantFacts[cn]), b.cl.ViewOf(b.node()).Proposer, b.target)
+		case "control":
+			controlChild(c, j)
 		}
 		return
 	}
@@ -69,29 +61,56 @@ func run(c *core.Ctx) {
 	}
 	o.Trusted = []string{"TLC", "hook H1 (VerifDeliver / VerifPopPeer / VerifReceive execute the bodies of receiveRoutine's select cases and Receive under recover)", "package cluster (synchronous driver)", "the Go instantiation of the lattice values"}
 
-	cfg := "PeerInput.cfg"
+	cfg, gcfg := "PeerInput.cfg", "PeerGossip.cfg"
 	if c.Thorough() {
-		cfg = "PeerInputBig.cfg"
+		cfg, gcfg = "PeerInputBig.cfg", "PeerGossipBig.cfg"
 	}
-	res := c.TLC(tlc.Options{SpecDir: c.SpecDir("PeerInput"), Module: "PeerInput", Config: cfg, Workers: 1, Timeout: c.MinutesT(3, 15)})
-	if res == nil {
+	// the five model-checking runs are independent: run them side by side
+	var res, asis, gasis, grep, gsim *tlc.Result
+	var twg sync.WaitGroup
+	tl := func(dst **tlc.Result, o tlc.Options) {
+		twg.Add(1)
+		go func() {
+			defer twg.Done()
+			o.SpecDir = c.SpecDir("PeerInput")
+			*dst = c.TLC(o)
+		}()
+	}
+	tl(&res, tlc.Options{Module: "PeerInput", Config: cfg, Workers: 1, Timeout: c.MinutesT(3, 15)})
+	// the code as it is: TLC must find a halting input (a lead; the verdict comes from the real code below)
+	tl(&asis, tlc.Options{Module: "PeerInput", Config: "PeerInput_asis.cfg", Workers: 1, Timeout: c.MinutesT(3, 10)})
+	tl(&gasis, tlc.Options{Module: "PeerGossip", Config: "PeerGossip_asis.cfg", Workers: 4, Timeout: c.MinutesT(3, 10)})
+	tl(&grep, tlc.Options{Module: "PeerGossip", Config: gcfg, Workers: 4, Timeout: c.MinutesT(3, 15)})
+	tl(&gsim, tlc.Options{Module: "PeerGossip", Config: "PeerGossip_sim.cfg", Workers: 1, Simulate: fmt.Sprintf("num=%d", c.Pick(80, 4000)), Depth: 15, Seed: c.Seed, Timeout: c.MinutesT(3, 10)})
+	twg.Wait()
+	if res == nil || asis == nil || gasis == nil || grep == nil || gsim == nil {
 		return
 	}
 	if res.Violated != "" || !res.Finished {
 		c.Infra("PeerInput (repaired model): %s\n%s", res.Describe(), res.Tail)
 		return
 	}
-	o.Exhaustive = true
-	// the code as it is: TLC must find a halting input (a lead; the verdict comes from the real code below)
-	asis := c.TLC(tlc.Options{SpecDir: c.SpecDir("PeerInput"), Module: "PeerInput", Config: "PeerInput_asis.cfg", Workers: 1, Timeout: c.MinutesT(3, 10)})
-	if asis == nil {
+	if grep.Violated != "" || !grep.Finished {
+		c.Infra("PeerGossip (repaired model): %s\n%s", grep.Describe(), grep.Tail)
 		return
 	}
-	c.SetExtra("model_of_the_code_as_it_is", fmt.Sprintf("TLC: %s violated=%q", asis.Describe(), asis.Violated))
+	o.Exhaustive = true
+	c.SetExtra("model_of_the_pinned_snapshot", fmt.Sprintf("PeerInput with all Fix* = FALSE (the code of snapshot d9527b5): %s", asis.Describe()))
 	if asis.Violated == "" {
 		c.Infra("the as-is model (all Fix* = FALSE) does not violate AlwaysRunning: the specification lost its teeth")
 		return
 	}
+	scen, nLeads, err := gossipScenarios(gasis.Lines, gsim.Lines)
+	if err != nil {
+		c.Infra("gossip scenarios: %v", err)
+		return
+	}
+	if nLeads == 0 {
+		c.Infra("the as-is gossip model (Fix* = FALSE) reaches no site of death: the specification lost its teeth")
+		return
+	}
+	c.SetExtra("gossip_model_leads", nLeads)
+	c.SetExtra("gossip_simulated_behaviours", len(scen)-nLeads)
 
 	// split the edges by class
 	base, err := ioutil.TempDir("", "vc16")
@@ -125,11 +144,31 @@ func run(c *core.Ctx) {
 			c.Infra("write edges: %v", err)
 			return
 		}
-		jobs = append(jobs, job{Kind: "class", Class: cn, Edges: f, Variants: c.Pick(1, 3), NBytes: c.Pick(1500, 12000), Idx: i})
+		jobs = append(jobs, job{Kind: "class", Class: cn, Edges: f, Variants: c.Pick(1, 5), NBytes: c.Pick(700, 20000), Idx: i})
 	}
-	jobs = append(jobs, job{Kind: "gossip", Class: "gossip", Idx: 100, Variants: c.Pick(1, 3)})
-	jobs = append(jobs, job{Kind: "alloc", Class: "alloc", Idx: 101})
+	sf := filepath.Join(base, "gossip.json")
+	sb, _ := json.Marshal(scen)
+	if err := ioutil.WriteFile(sf, sb, 0644); err != nil {
+		c.Infra("write scenarios: %v", err)
+		return
+	}
+	for gi, gn := range gossipNodes {
+		jobs = append(jobs, job{Kind: "gossip", Class: "gossip/" + gn, Idx: 50 + gi, Edges: sf, NBytes: len(scen)})
+	}
+	for ai := range allocScenarios {
+		jobs = append(jobs, job{Kind: "alloc", Class: fmt.Sprintf("alloc/%d", ai), Idx: 101 + ai, From: ai})
+	}
 
+	jobs = append(jobs, job{Kind: "control", Class: "h1-propose", Edges: filepath.Join(base, "h1-propose.ndjson"), Idx: 200})
+	if only := os.Getenv("C16_ONLY"); only != "" { // development: run one kind of job
+		var sel []job
+		for _, j := range jobs {
+			if strings.HasPrefix(j.Class, only) || j.Kind == only {
+				sel = append(sel, j)
+			}
+		}
+		jobs = sel
+	}
 	agg := newAggregate()
 	var wg sync.WaitGroup
 	var mu sync.Mutex
@@ -140,10 +179,29 @@ func run(c *core.Ctx) {
 			defer wg.Done()
 			sem <- struct{}{}
 			defer func() { <-sem }()
+			if j.Kind == "gossip" {
+				runGossipJob(c, j, agg, &mu)
+				return
+			}
+			if j.Kind == "control" {
+				arg, _ := json.Marshal(j)
+				results, _, crash := c.RunChild(string(arg), c.MinutesT(3, 5))
+				var cr controlResult
+				if len(results) > 0 {
+					json.Unmarshal([]byte(results[0]), &cr)
+				}
+				c.SetExtra("negative_controls", map[string]int{"falsified_stutter_labels_rejected_of_2": cr.StutterOracle, "falsified_accept_labels_rejected_of_1": cr.Conformance})
+				if crash != "" || cr.Infra != "" || cr.StutterOracle != 2 || cr.Conformance != 1 {
+					c.Infra("vacuous binding: the negative controls were not all rejected (%+v, %s)", cr, crash)
+				}
+				return
+			}
 			arg, _ := json.Marshal(j)
+			t0 := time.Now()
 			results, at, crash := c.RunChild(string(arg), c.MinutesT(4, 25))
 			mu.Lock()
 			defer mu.Unlock()
+			agg.times[j.Class] = time.Since(t0).Seconds()
 			for _, r := range results {
 				var jr jobResult
 				if err := json.Unmarshal([]byte(r), &jr); err != nil {
@@ -164,19 +222,58 @@ func run(c *core.Ctx) {
 	agg.report(c)
 }
 
+// runGossipJob runs the scenarios of one class; a scenario that kills the child is recorded and
+// the child is started again behind it.
+func runGossipJob(c *core.Ctx, j job, agg *aggregate, mu *sync.Mutex) {
+	end := j.NBytes
+	for restarts := 0; j.From < end && restarts < 80; restarts++ {
+		arg, _ := json.Marshal(j)
+		results, at, crash := c.RunChild(string(arg), c.MinutesT(3, 20))
+		mu.Lock()
+		for _, r := range results {
+			var jr jobResult
+			if err := json.Unmarshal([]byte(r), &jr); err == nil {
+				agg.add(c, &jr)
+			}
+		}
+		if crash == "" {
+			mu.Unlock()
+			return
+		}
+		if crash == "TIMEOUT" {
+			c.Infra("job %s timed out (last position: %.300s)", j.Class, at)
+			mu.Unlock()
+			return
+		}
+		agg.crash(c, j, at, crash)
+		agg.gossipDeaths++
+		mu.Unlock()
+		var pos struct {
+			K int `json:"k"`
+		}
+		if json.Unmarshal([]byte(at), &pos) != nil {
+			c.Infra("job %s: cannot continue after a crash at %.200s", j.Class, at)
+			return
+		}
+		j.From = pos.K + 1
+	}
+}
+
 // ---- aggregation ----------------------------------------------------------------------
 
 type aggregate struct {
-	hits    map[string][]hit
-	latent  map[string]int
-	byEff   map[string]int
-	live    map[string]uint64
-	classes int
-	tot     jobResult
+	hits         map[string][]hit
+	latent       map[string]int
+	byEff        map[string]int
+	live         map[string]uint64
+	classes      int
+	tot          jobResult
+	gossipDeaths int
+	times        map[string]float64
 }
 
 func newAggregate() *aggregate {
-	return &aggregate{hits: map[string][]hit{}, latent: map[string]int{}, byEff: map[string]int{}, live: map[string]uint64{}}
+	return &aggregate{hits: map[string][]hit{}, latent: map[string]int{}, byEff: map[string]int{}, live: map[string]uint64{}, times: map[string]float64{}}
 }
 
 func (a *aggregate) add(c *core.Ctx, jr *jobResult) {
@@ -195,7 +292,9 @@ func (a *aggregate) add(c *core.Ctx, jr *jobResult) {
 	for k, v := range jr.ByEff {
 		a.byEff[k] += v
 	}
-	a.live[jr.Class] = jr.LiveTo
+	if jr.LiveTo > 0 {
+		a.live[jr.Class] = jr.LiveTo
+	}
 	t := &a.tot
 	t.Edges += jr.Edges
 	t.Deliveries += jr.Deliveries
@@ -208,6 +307,11 @@ func (a *aggregate) add(c *core.Ctx, jr *jobResult) {
 	t.BytesDecode += jr.BytesDecode
 	t.AsIsPanic += jr.AsIsPanic
 	t.AsIsAgree += jr.AsIsAgree
+	t.WALEntries += jr.WALEntries
+	t.WALTooBig += jr.WALTooBig
+	if jr.WALMaxBytes > t.WALMaxBytes {
+		t.WALMaxBytes = jr.WALMaxBytes
+	}
 	if jr.Sample != nil {
 		c.Sample(jr.Sample)
 	}
@@ -226,12 +330,33 @@ func (a *aggregate) crash(c *core.Ctx, j job, at, crash string) {
 	if j.Kind == "gossip" || j.Kind == "alloc" {
 		key = "process-death/" + where
 	}
-	a.hits[key] = append(a.hits[key], hit{Key: key, Kind: "process-death", Class: j.Class, Path: j.Kind, Concrete: at, Detail: crash})
+	model := ""
+	if j.Kind == "alloc" {
+		model = fmt.Sprintf("address space limited to %d GiB", allocLimit>>30)
+		var sc allocScenario
+		if json.Unmarshal([]byte(at), &sc) == nil && sc.Name != "" {
+			at = sc.Name
+			key += map[bool]string{true: "/byzantine-proposer", false: "/any-peer"}[sc.Signed]
+		}
+	}
+	if j.Kind == "gossip" {
+		var pos struct {
+			Lead string `json:"lead"`
+		}
+		json.Unmarshal([]byte(at), &pos)
+		model = "a simulated behaviour of the repaired model (the repaired code survives it)"
+		if pos.Lead != "" {
+			model = "as-is model: the process dies at " + pos.Lead
+		}
+	}
+	a.hits[key] = append(a.hits[key], hit{Key: key, Kind: "process-death", Class: j.Class, Path: j.Kind, Concrete: at, Detail: crash, Model: model})
 }
 
-// crashSite names the first frame of the repository in a crash dump.
+// crashSite names where the process died: for a gossip goroutine "<routine>/<what it called>",
+// otherwise the panic and the first frame of the repository.
 func crashSite(crash string) string {
 	first := ""
+	var frames []string // functions of the repository, innermost first
 	for _, l := range strings.Split(crash, "\n") {
 		l = strings.TrimSpace(l)
 		if strings.HasPrefix(l, "panic:") || strings.HasPrefix(l, "fatal error:") {
@@ -239,14 +364,33 @@ func crashSite(crash string) string {
 				first = panicClass(l)
 			}
 		}
-		if i := strings.Index(l, "github.com/lianxiangcloud/linkchain/"); i >= 0 && strings.Contains(l, "(") && !strings.Contains(l, ".go:") {
-			fn := l[i+len("github.com/lianxiangcloud/linkchain/"):]
-			if k := strings.Index(fn, "("); k > 0 && strings.Contains(fn[:k], ".") {
-				fn = fn[:strings.LastIndex(fn, "(")]
-			}
-			fn = strings.NewReplacer("(", "", ")", "", "*", "").Replace(fn)
-			return first + "@" + fn
+		if strings.HasPrefix(l, "goroutine ") && len(frames) > 0 {
+			break // only the goroutine that failed
 		}
+		if i := strings.Index(l, "github.com/lianxiangcloud/linkchain/"); i == 0 && strings.Contains(l, "(") && !strings.Contains(l, ".go:") {
+			fn := l[len("github.com/lianxiangcloud/linkchain/"):]
+			fn = fn[:strings.LastIndex(fn, "(")]
+			fn = strings.NewReplacer("(", "", ")", "", "*", "", "...", "").Replace(fn)
+			if k := strings.LastIndex(fn, "/"); k >= 0 {
+				fn = fn[k+1:]
+			}
+			if k := strings.Index(fn, "."); k >= 0 {
+				fn = fn[k+1:] // drop the package name
+			}
+			frames = append(frames, fn)
+		}
+	}
+	for i, f := range frames {
+		base := f[strings.LastIndex(f, ".")+1:]
+		if strings.HasPrefix(base, "gossip") || strings.HasPrefix(base, "queryMaj23") {
+			if i > 0 {
+				return base + "/" + frames[i-1]
+			}
+			return base
+		}
+	}
+	if len(frames) > 0 {
+		return first + "@" + frames[0]
 	}
 	return first
 }
@@ -267,8 +411,10 @@ func (a *aggregate) report(c *core.Ctx) {
 	c.SetExtra("byte_level_inputs_decodable", t.BytesDecode)
 	c.SetExtra("by_model_effect", a.byEff)
 	c.SetExtra("latent_state_machine_failures_masked_by_the_reactor", a.latent)
-	c.SetExtra("as_is_model_predicted_panics", map[string]int{"predicted": t.AsIsPanic, "reproduced_on_the_code": t.AsIsAgree})
+	c.SetExtra("snapshot_model_predicted_state_machine_failures", map[string]int{"predicted": t.AsIsPanic, "observed_on_this_tree": t.AsIsAgree})
+	c.SetExtra("wal_encodings_of_peer_messages", map[string]int{"entries": t.WALEntries, "largest_bytes": t.WALMaxBytes, "above_the_decoders_1MiB_limit": t.WALTooBig})
 	c.SetExtra("height_committed_after_the_barrage", a.live)
+	c.SetExtra("job_wall_seconds", a.times)
 	keys := make([]string, 0, len(a.hits))
 	for k := range a.hits {
 		keys = append(keys, k)
@@ -359,4 +505,57 @@ func minimalStateChanges(keys []string) []string {
 		}
 	}
 	return out
+}
+
+// gossipScenarios assembles the behaviours the gossip phase replays: the shortest lead per (site of
+// death, node class) of the as-is model, then the simulated behaviours of the repaired model.
+func gossipScenarios(leadLines, walkLines []string) ([]gScenario, int, error) {
+	type leadRec struct {
+		Lead string  `json:"lead"`
+		Node string  `json:"node"`
+		Hist []gStep `json:"hist"`
+	}
+	best := map[string]leadRec{}
+	for _, l := range leadLines {
+		var r leadRec
+		if json.Unmarshal([]byte(l), &r) != nil || r.Lead == "" {
+			continue
+		}
+		k := r.Lead + "|" + r.Node
+		if b, ok := best[k]; !ok || len(r.Hist) < len(b.Hist) {
+			best[k] = r
+		}
+	}
+	var keys []string
+	for k := range best {
+		keys = append(keys, k)
+	}
+	sort.Strings(keys)
+	var out []gScenario
+	for _, k := range keys {
+		out = append(out, gScenario{Node: best[k].Node, Lead: best[k].Lead, Steps: best[k].Hist})
+	}
+	nLeads := len(out)
+	seen := map[string]bool{}
+	for _, l := range walkLines {
+		var r struct {
+			Walk []gStep `json:"walk"`
+			Node string  `json:"node"`
+		}
+		if json.Unmarshal([]byte(l), &r) != nil || len(r.Walk) < 2 {
+			continue
+		}
+		// the simulator evaluates the invariant on every candidate successor: keep one per prefix
+		pre, _ := json.Marshal(r.Walk[:len(r.Walk)-1])
+		key := r.Node + string(pre)
+		if seen[key] {
+			continue
+		}
+		seen[key] = true
+		out = append(out, gScenario{Node: r.Node, Steps: r.Walk})
+	}
+	if len(out) == nLeads {
+		return nil, 0, fmt.Errorf("the simulation exported no behaviour")
+	}
+	return out, nLeads, nil
 }
